@@ -35,10 +35,62 @@ def is_leak(t):
     return c.endswith(LEAK_SUFFIX) or "ManuallyDrop" in c or c == "core::intrinsics::transmute" or c.endswith("mem::transmute")
 
 
+def closures_for_param(fx, ctx_, b, callee_operand):
+    """the closures that callers of b's function pass for the parameter `callee_operand` refers to (a `F: FnOnce(..)`
+    parameter that b invokes): [(closure fn record)]"""
+    os_ = b.origins(callee_operand)
+    if not os_ or not all(o.kind == "arg" and not o.proj for o in os_):
+        return None
+    k = next(iter(os_)).site
+    out = []
+    name = b.name
+    for g, _bi, t in graph.all_calls(fx, lambda t, _n=name: (t.get("resolved") or t.get("callee")) == _n):
+        if k - 1 >= len(t["args"]):
+            return None
+        ty = t["argtys"][k - 1] if k - 1 < len(t.get("argtys", [])) else ""
+        if not (ty.startswith("{closure:") and fx.fn(ty[len("{closure:"):-1])):
+            return None
+        out.append(fx.fn(ty[len("{closure:"):-1]))
+    return out or None
+
+
 def follow_capture(fx, ctx_, b, local, depth=0):
     """final sinks of a value across closure/coroutine capture boundaries"""
     out = []
-    for s in sinks(b, local, into_closures=False):
+    skip_tuple = [False]
+    for s in sorted(sinks(b, local, into_closures=False), key=lambda s_: 0 if s_["k"] == "call" else 1):
+        if skip_tuple[0] and s["k"] == "agg" and s.get("ak") == "tuple":
+            continue
+        if s["k"] == "call" and (s["t"].get("callee") or "").endswith(("FnOnce::call_once", "FnMut::call_mut", "Fn::call")) and s["idx"] == 1 and depth < 5:
+            # the value is handed to a closure parameter this function invokes (`into_task(tx_response)`): go on in every
+            # closure the callers pass for it
+            cls = closures_for_param(fx, ctx_, b, s["t"]["args"][0])
+            # (s["idx"] == 1: the argument tuple; which element is recovered from the tuple literal)
+            elem = None
+            for o in b.origins(s["t"]["args"][1]):
+                if o.kind == "agg":
+                    ops = b.blocks[o.site[0]]["s"][o.site[1]]["r"]["ops"]
+                    for i_, op_ in enumerate(ops):
+                        cur_ = op_["p"][0] if op_.get("k") in ("move", "copy") and len(op_["p"]) == 1 else None
+                        for _hop in range(4):
+                            if cur_ is None or cur_ == local:
+                                break
+                            ds_ = b.assigns.get(cur_, [])
+                            r_ = ds_[0][2]["r"] if len(ds_) == 1 else {}
+                            cur_ = r_["o"]["p"][0] if r_.get("k") == "use" and r_["o"].get("k") in ("move", "copy") and len(r_["o"]["p"]) == 1 else None
+                        if cur_ == local:
+                            elem = i_
+            if cls and elem is not None:
+                out[:] = [(b0, s0) for (b0, s0) in out if not (b0 is b and s0["k"] == "agg" and s0.get("ak") == "tuple")]
+                skip_tuple[0] = True
+                for c in cls:
+                    cb = ctx_.body(fx, c)
+                    for s2 in sinks(cb, 2 + elem, into_closures=False):
+                        if s2["k"] == "agg" and s2.get("ak") in ("closure", "coroutine") and fx.fn(s2["def"]):
+                            out.extend((b3, dict(s3, via_closure=c["def"])) for b3, s3 in follow_upvar(fx, ctx_, ctx_.body(fx, fx.fn(s2["def"])), s2["idx"], depth + 2))
+                        elif s2["k"] in ("call", "store", "ret", "yield", "agg"):
+                            out.append((cb, dict(s2, via_closure=c["def"])))
+                continue
         if s["k"] == "agg" and s.get("ak") in ("closure", "coroutine") and depth < 5:
             child = fx.fn(s["def"])
             if child is None:
@@ -63,6 +115,93 @@ def follow_upvar(fx, ctx_, cb, idx, depth):
         elif s["k"] in ("call", "store", "ret", "yield", "agg"):
             out.append((cb, s))
     return out
+
+
+def inside_payload(ctx, fx, name):
+    """is the body `name` nested inside a closure that is handed to a payload constructor (i.e. does it run when the
+    payload is executed by the actor's loop, not when the payload is built)?"""
+    pctors = loops.payload_ctors(fx)
+    cur = fx.fn(name)
+    for _ in range(8):
+        if cur is None or cur["kind"] not in ("closure", "coroutine"):
+            return False
+        par = fx.fn(cur.get("parent") or "")
+        if par is None:
+            return False
+        needle = "{closure:%s}" % cur["def"]
+        for _bi, t in ctx.body(fx, par).normal_calls():
+            if (t.get("resolved") or t.get("callee")) in pctors and any(a == needle for a in t.get("argtys", [])):
+                return True
+        cur = par
+    return False
+
+
+def check_response_value(ctx, fx, f, b, sb, s, inst):
+    """what the payload sends back is exactly the awaited result of this message's handler invocation (or unit for ping)"""
+    # it must live in a body nested inside the payload closure (not in the caller)
+    ctx.require(sb.name != b.name and inside_payload(ctx, fx, sb.name), "R02.1", inst + ":sender-inside-payload", "the response is sent from %s, not from the payload of this call" % sb.name, fn=f["def"], site=s["t"]["l"])
+    val = s["t"]["args"][1]
+    vr = sb.origins(val)
+    kinds = set()
+    for o in vr:
+        if o.kind == "await":
+            for (_cb, ct) in sb.awaited_calls(o.site[0]):
+                if ct.get("trait") == loops.T_H and (ct.get("callee") or "").endswith("::handle"):
+                    kinds.add("handler-result")
+                    # the message handled is the captured one; actor/ctx are the payload's arguments
+                    mr = roots(sb, ct["args"][2])
+                    ctx.require(all(r.kind == "upvar" for r in mr), "R02.1", inst + ":own-message", "the handler is invoked with something else than the message of this call", fn=sb.name, site=ct["l"])
+                else:
+                    kinds.add("await:" + str(ct.get("callee")))
+        elif o.kind in ("agg", "const"):
+            kinds.add("unit" if "()" in str(sb.locals[val["p"][0]]["ty"] if val["k"] != "const" else val.get("ty")) else "constant")
+        else:
+            kinds.add(o.kind)
+    is_ping = f["def"].endswith("::ping::{closure#0}") or "::ping::" in sb.name
+    want = {"unit"} if is_ping else {"handler-result"}
+    ctx.require(kinds == want, "R02.1", inst + ":response-value", "the response must be exactly the awaited result of this message's handler invocation: got %s" % sorted(kinds), fn=sb.name, site=s["t"]["l"], detail=sorted(kinds))
+
+
+def check_receiver(ctx, fx, f, b, rx_l, bi, inst, site):
+    rsk = sinks(b, rx_l)
+    # a receiver that arrives wrapped in a Result (from a slot-creating helper) is unwrapped with `?` first
+    more = []
+    for x in list(rsk):
+        if x["k"] == "call" and (x["t"].get("callee") or "").endswith("Try::branch") and len(x["t"]["dest"]) == 1:
+            rsk.remove(x)
+            more += [y for y in sinks(b, x["t"]["dest"][0]) if not (y["k"] == "call" and (y["t"].get("callee") or "").endswith("from_residual"))]
+    rsk = [x for x in rsk + more if x["k"] not in ("drop", "inspect")]
+    polled = [x for x in rsk if x["k"] == "call" and (x["t"].get("callee") or "").endswith("Future::poll")]
+    stray = [x for x in rsk if x["k"] in ("agg", "store", "ret") or (x["k"] == "call" and not (x["t"].get("callee") or "").endswith(("Future::poll", "get_context", "Try::branch", "from_residual")))]
+    ctx.require(len(polled) >= 1 and not stray, "R02.1", inst + ":receiver-awaited", "the response receiver must be awaited by the caller and nothing else", fn=f["def"], site=site)
+    okv = [st["r"]["ops"][0] for _bi, _si, st in agg_sites(b, adt="core::result::Result", variant="Ok") if st["p"] == [0]]
+    # ... or the received result handed back through an adapter that keeps its Ok value (`rx.await.map_err(..)`)
+    for _cbi, ct in b.normal_calls():
+        if ct["dest"] == [0] and ct.get("callee") in ("core::result::{impl#0}::map_err", "core::result::{impl#0}::inspect_err", "core::result::{impl#0}::inspect") and ct["args"]:
+            okv.append(ct["args"][0])
+    for _l, defs in b.assigns.items():
+        for (_abi, _asi, ast) in defs:
+            if ast["p"] == [0] and ast["r"]["k"] == "use" and ast["r"]["o"].get("k") in ("move", "copy") and any(o.kind == "await" for o in b.origins(ast["r"]["o"])):
+                okv.append(ast["r"]["o"])
+    good = bool(okv)
+    for okop in okv:
+        rs = roots(b, okop)
+        for o in rs:
+            if o.kind != "await":
+                good = False
+                continue
+            pr = b.polled_future_origins(o.site[0])
+
+            def from_site(p):
+                if p.kind != "call":
+                    return False
+                if p.site == (bi,):
+                    return True
+                pt = b.call_at(p)
+                return (pt.get("callee") or "").endswith("Try::branch") and all(q.kind == "call" and q.site == (bi,) for q in b.origins(pt["args"][0], through_calls=False))
+            if not all(from_site(p) for p in pr):
+                good = False
+    ctx.require(good, "R02.1", inst + ":ok-from-receiver", "Ok(..) returned by a call must be the value received on this call's response channel", fn=f["def"], site=site)
 
 
 def run(ctx):
@@ -107,35 +246,38 @@ def check_cfg(ctx, fx, cfg):
             if not ctx.require(tx_l is not None and rx_l is not None, "R02.1", inst + ":slot", "cannot see both ends of the response channel", fn=f["def"], site=t["l"]):
                 continue
             # sender: only Sender::send(v) inside the payload
-            fin = follow_capture(fx, ctx, b, tx_l)
-            sends = [(bb_, s) for bb_, s in fin if s["k"] == "call" and (s["t"].get("callee") or "").startswith("futures_channel::oneshot::") and (s["t"].get("callee") or "").endswith("::send") and s["idx"] == 0]
-            other = [(bb_.name, s["k"], s.get("t", {}).get("callee")) for bb_, s in fin if (bb_, s) not in sends]
-            if not ctx.require(len(sends) == 1 and not other, "R02.1", inst + ":sender", "the response sender must be consumed only by one send() inside the payload: sends=%d other=%s" % (len(sends), other), fn=f["def"], site=t["l"]):
+            fin_all = follow_capture(fx, ctx, b, tx_l)
+            # a slot-creating helper that is given the payload-building closure by its callers: one instance per closure
+            groups = {}
+            for bb_, s in fin_all:
+                groups.setdefault(s.get("via_closure"), []).append((bb_, s))
+            base_inst = inst
+            send_ok = True
+            for gkey, fin in sorted(groups.items(), key=lambda kv: str(kv[0])):
+              inst = base_inst if gkey is None else "%s[%s]" % (base_inst, gkey.split("::{")[0].split("::")[-1])
+              sends = [(bb_, s) for bb_, s in fin if s["k"] == "call" and (s["t"].get("callee") or "").startswith("futures_channel::oneshot::") and (s["t"].get("callee") or "").endswith("::send") and s["idx"] == 0]
+              other = [(bb_.name, s["k"], s.get("t", {}).get("callee")) for bb_, s in fin if (bb_, s) not in sends]
+              if not ctx.require(len(sends) == 1 and not other, "R02.1", inst + ":sender", "the response sender must be consumed only by one send() inside the payload: sends=%d other=%s" % (len(sends), other), fn=f["def"], site=t["l"]):
+                send_ok = False
                 continue
-            sb, s = sends[0]
-            # it must live in a body nested inside the payload closure (not in the caller)
-            ctx.require(sb.name != b.name and sb.name.startswith(f["def"]), "R02.1", inst + ":sender-inside-payload", "the response is sent from %s, not from the payload of this call" % sb.name, fn=f["def"], site=s["t"]["l"])
-            val = s["t"]["args"][1]
-            vr = sb.origins(val)
-            kinds = set()
-            for o in vr:
-                if o.kind == "await":
-                    for (_cb, ct) in sb.awaited_calls(o.site[0]):
-                        if ct.get("trait") == loops.T_H and (ct.get("callee") or "").endswith("::handle"):
-                            kinds.add("handler-result")
-                            # the message handled is the captured one; actor/ctx are the payload's arguments
-                            mr = roots(sb, ct["args"][2])
-                            ctx.require(all(r.kind == "upvar" for r in mr), "R02.1", inst + ":own-message", "the handler is invoked with something else than the message of this call", fn=sb.name, site=ct["l"])
-                        else:
-                            kinds.add("await:" + str(ct.get("callee")))
-                elif o.kind in ("agg", "const"):
-                    kinds.add("unit" if "()" in str(sb.locals[val["p"][0]]["ty"] if val["k"] != "const" else val.get("ty")) else "constant")
-                else:
-                    kinds.add(o.kind)
-            is_ping = f["def"].endswith("::ping::{closure#0}")
-            want = {"unit"} if is_ping else {"handler-result"}
-            ctx.require(kinds == want, "R02.1", inst + ":response-value", "the response must be exactly the awaited result of this message's handler invocation: got %s" % sorted(kinds), fn=sb.name, site=s["t"]["l"], detail=sorted(kinds))
-            # receiver: awaited here, Ok derives from it
+              sb, s = sends[0]
+              check_response_value(ctx, fx, f, b, sb, s, inst)
+            inst = base_inst
+            if not send_ok or not groups:
+                if not groups:
+                    ctx.viol("R02.1", inst + ":sender", "the response sender goes nowhere", fn=f["def"], site=t["l"])
+                continue
+            # receiver: awaited here, Ok derives from it — or handed back to the callers, who each await it
+            rsk0 = sinks(b, rx_l)
+            rsk0 = [x for x in rsk0 if x["k"] != "drop"]
+            if rsk0 and all(x["k"] in ("agg", "ret") for x in rsk0) and any(x["k"] == "ret" for x in rsk0) and not f["def"].endswith("}"):
+                hcallers = [(g_, bi2, t2) for g_, bi2, t2 in graph.all_calls(fx, lambda x, _n=f["def"]: (x.get("resolved") or x.get("callee")) == _n)]
+                ctx.require(bool(hcallers), "R02.1", inst + ":receiver-awaited", "the response receiver is handed back by a helper nobody calls", fn=f["def"], site=t["l"])
+                for g_, bi2, t2 in hcallers:
+                    check_receiver(ctx, fx, g_, ctx.body(fx, g_), t2["dest"][0], bi2, "%s@%s" % (g_["def"], cfg), t2["l"])
+                continue
+            check_receiver(ctx, fx, f, b, rx_l, bi, inst, t["l"])
+            continue
             rsk = sinks(b, rx_l)
             polled = [x for x in rsk if x["k"] == "call" and (x["t"].get("callee") or "").endswith("Future::poll")]
             stray = [x for x in rsk if x["k"] in ("agg", "store", "ret") or (x["k"] == "call" and not (x["t"].get("callee") or "").endswith(("Future::poll", "get_context")))]
